@@ -321,6 +321,10 @@ func textEdits(o *render.Out, r *prng.Rand) []edit {
 			}
 		case "number":
 			tok := string(d[s.Off:end])
+			// an exponent marker and sign with no digits after them
+			if s.Aux != 10 || !strings.ContainsAny(tok, "xXbB") {
+				ins("exponent-sign-without-digits", end, []string{"d+", "d-", "D+", "e+", "e-", "E-"}[r.Intn(6)])
+			}
 			// a numeric token must be followed by a stop character; a lone operator character or a letter is not one
 			ins("number-followed-by-non-stop-character", end, []string{"/x", "/1", "a", "$", "_x", "#"}[r.Intn(6)])
 			// digit grouping around the first digit, the decimal point and the exponent marker (ints, floats, decimals)
